@@ -194,7 +194,9 @@ Definition le32_val (h : list Z) : Z :=
 Definition is_space (c : Z) : bool := (c =? 32) || ((9 <=? c) && (c <=? 13)).
 Fixpoint trim_left (s : list Z) : list Z :=
   match s with c :: r => if is_space c then trim_left r else s | [] => [] end.
-Definition trim_space (s : list Z) : list Z := rev (trim_left (rev (trim_left s))).
+(* [rev_append _ []] is List.rev in linear time (List.rev itself is quadratic, which the extracted
+   model cannot afford on topology lines of 64 KiB and more); [rev_alt] says they are equal *)
+Definition trim_space (s : list Z) : list Z := rev_append (trim_left (rev_append (trim_left s) [])) [].
 
 Definition ack_line : list Z := [97; 99; 107].
 
